@@ -9,10 +9,47 @@ import os
 TRANSPARENT = ("Try", "Await")
 
 
+def _canonical_private_types(text):
+    """Private types that rules address by role are given their canonical names before anything else looks at the facts, so that renaming them
+    in the repository changes nothing: the tile-source enum (two tuple variants: (u64) = stored under its hash, (u64, u32) = offset/length in
+    the backing reader) and the layout result (the struct holding a byte vector and a Directory)."""
+    import re
+    try:
+        raw = json.loads(text)
+    except ValueError:
+        return text
+    ren = []
+    for a in raw.get("adts", []):
+        vs = a.get("variants") or []
+        if a.get("kind") == "enum" and len(vs) == 2:
+            shapes = {tuple(f["ty"] for f in v["fields"]): v for v in vs}
+            if set(shapes) == {("u64",), ("u64", "u32")}:
+                ren.append((a["path"] + "::" + shapes[("u64",)]["name"], "tile_manager::TileManagerTile::Hash"))
+                ren.append((a["path"] + "::" + shapes[("u64", "u32")]["name"], "tile_manager::TileManagerTile::OffsetLength"))
+                ren.append((a["path"], "tile_manager::TileManagerTile"))
+        if a.get("kind") == "struct" and len(vs) == 1:
+            tys = [f["ty"] for f in vs[0]["fields"]]
+            if "alloc::vec::Vec<u8>" in tys and "directory::Directory" in tys and len(tys) >= 4:
+                ren.append((a["path"], "tile_manager::FinishResult"))
+    # public types keep their canonical definition path wherever their (private) module lives or whatever it is called
+    CANON = {"Header": "header::Header", "LatLng": "header::lat_lng::LatLng", "Compression": "header::compression::Compression", "TileType": "header::tile_type::TileType",
+             "Directory": "directory::Directory", "Entry": "directory::Entry", "PMTiles": "pmtiles::PMTiles", "TileManager": "tile_manager::TileManager",
+             "OffsetLength": "util::read_directories::OffsetLength", "WriteDirsOverflowStrategy": "util::write_directories::WriteDirsOverflowStrategy"}
+    for a in raw.get("adts", []):
+        nm = a["path"].rpartition("::")[2]
+        if nm in CANON and a["path"] != CANON[nm] and not any(o == a["path"] for o, _ in ren):
+            ren.append((a["path"], CANON[nm]))
+    for old, new in ren:
+        if old != new:
+            text = re.sub(re.escape(old) + r"(?![A-Za-z0-9_])", new, text)
+    return text
+
+
 class Facts:
     def __init__(self, path):
         with open(path) as f:
-            self.raw = json.load(f)
+            text = f.read()
+        self.raw = json.loads(_canonical_private_types(text))
         self.path = path
         self.crate = self.raw["crate"]
         self.features = self.raw["features"]
